@@ -137,7 +137,42 @@ def parseObs (n m : Nat) : List String → Option Obs
     | _ => none
   | _ => none
 
+/-- `fine` cases: ops as above plus `Kb x c` (kick up to the unlock) and `Ke c` (its I/O part on connection c) -/
+def parseFine : Nat → List String → Option (List FineOp)
+  | 0, _ => none
+  | _, [] => some []
+  | fuel + 1, "Kb" :: x :: c :: r => do
+    let x ← x.toNat?; let c ← c.toNat?
+    let rest ← parseFine fuel r
+    pure (FineOp.kickLock x c :: rest)
+  | fuel + 1, "Ke" :: c :: r => do
+    let c ← c.toNat?
+    let rest ← parseFine fuel r
+    pure (FineOp.kickIO c :: rest)
+  | fuel + 1, ts => do
+    let (o, r) ← parseOps (ts.length + 1) ts
+    if o.isEmpty then none
+    let rest ← parseFine fuel r
+    pure (o.map FineOp.op ++ rest)
+
+structure FineCase where
+  n : Nat
+  m : Nat
+  cap : Nat
+  ops : List FineOp
+
+def parseFineCase : List String → Option FineCase
+  | "fine" :: "n" :: n :: "m" :: m :: "cap" :: cap :: "ops" :: r => do
+    let n ← n.toNat?; let m ← m.toNat?; let cap ← cap.toNat?
+    if n > 16 || m > 16 then none
+    let ops ← parseFine (r.length + 1) r
+    pure ⟨n, m, cap, ops⟩
+  | _ => none
+
 def runModel (ts : List String) : String :=
+  match parseFineCase ts with
+  | some c => obsStr (obsOf (runFine .repaired (init c.n c.cap) c.ops) c.m)
+  | none =>
   match parseCase ts with
   | some c =>
     if c.kind == "seq" || c.kind == "strict" then
@@ -146,6 +181,12 @@ def runModel (ts : List String) : String :=
   | none => "bad-case"
 
 def runHolds (caseToks obsToks : List String) : String :=
+  match parseFineCase caseToks with
+  | some c =>
+    match parseObs c.n c.m obsToks with
+    | none => "false"
+    | some o => boolStr (holdsFine c.n c.m c.cap c.ops o)
+  | none =>
   match parseCase caseToks with
   | some c =>
     match parseObs c.n c.m obsToks with
